@@ -33,7 +33,7 @@ CHECKS = {
  "C09": dict(technique="runtime monitoring: panic/crash monitor (catch_unwind + panic-location hook + parent-side death detection; thorough adds a plain-release pass, valgrind memcheck and a Miri pass over the ring-free paths) over hostile token strings at all 24 entry points, live-parser sessions (one parser object re-configured between parses) and Key::<N>::try_from",
    text="Any Ok/Err is accepted, a panic or process death is the violation. Exhaustive over decoded payload lengths 0..=400 per protocol x fill x footer, every prefix of authentic tokens, hex strings of every length 0..=200; seeded random and large inputs on top.",
    note="inputs above 3 MiB not driven; valgrind decides only on process death or invalid write/free below a library frame", ref="DESIGN.md section 4 C09"),
- "C10": dict(technique="runtime monitoring: history monitor over recorded nonce fields of N builds under one key (pairwise distinctness, per-bit Hoeffding bound, constant-byte check) on one thread, on 8-16 threads at once and across idle pauses, repeated in two separate processes and in a third one built with the plain release profile (no debug assertions), with a cross-process comparison, plus RNG fault injection through a guarded hook (no nonce may repeat while the RNG fails)",
+ "C10": dict(technique="runtime monitoring: history monitor over recorded nonce fields of N builds under one key (pairwise distinctness, per-bit Hoeffding bound, constant-byte check) on one thread, on 8-16 threads at once across idle pauses and alternating with parses of one token on the same thread, repeated in two separate processes and in a third one built with the plain release profile (no debug assertions), with a cross-process comparison, plus RNG fault injection through a guarded hook (no nonce may repeat while the RNG fails)",
    text="For v1-v4 local x {GenericBuilder, PasetoBuilder} x {fresh builder, one builder reused}: 4096 builds (thorough additionally 102400 from 16 threads) with identical claims/footer/assertion; nonces must be pairwise distinct, no byte position constant, every bit frequency within N/2 +- 5.3 sqrt(N); no nonce may occur in two of the three separate processes (two from the harness profile, one from a plain release build).",
    note="unpredictability proper is out of reach of observation: constants, counters, clocks, message-derived nonces, low entropy and fixed seeds are detected, a statistically clean but weak generator is not", ref="DESIGN.md section 4 C10"),
  "C11": dict(technique="runtime monitoring: time-claim monitor (instant known by construction, renderings from the harness's own calendar arithmetic) over the full UTC-offset x fraction rendering space and a non-timestamp catalogue, against PasetoParser::default(), plus clock-progress histories (the same parser object must change its answer when the claim crosses now)",
